@@ -357,6 +357,36 @@ func (b *TB) bin(op Op, x, y *T) *T {
 			return b.BV(w, v)
 		}
 	}
+	// narrow divisions whose operands are structurally small and non-negative
+	if (op == OUDiv || op == OURem || op == OSDiv || op == OSRem) && w > 8 {
+		lim := uint64(1) << uint(w-1)
+		if x.ub < lim && y.ub < lim && (op == OUDiv || op == OURem || true) {
+			m := x.ub
+			if y.ub > m {
+				m = y.ub
+			}
+			nw := 0
+			for _, cand := range []int{8, 16, 32} {
+				if cand < w && m < uint64(1)<<uint(cand) {
+					nw = cand
+					break
+				}
+			}
+			if nw > 0 && !(y.IsConst() && y.k == 0) {
+				uop := op
+				if op == OSDiv {
+					uop = OUDiv
+				}
+				if op == OSRem {
+					uop = OURem
+				}
+				// division by zero keeps SMT-LIB semantics only for the unsigned forms; callers guard zero divisors
+				if y.IsConst() {
+					return b.ZExt(b.bin(uop, b.Extract(x, nw-1, 0), b.Extract(y, nw-1, 0)), w)
+				}
+			}
+		}
+	}
 	// light simplifications
 	switch op {
 	case OAdd:
